@@ -278,3 +278,58 @@ func ZZH_C10_Size() {
 	zzvAssert(zzvAnd(ext.Cx == zzvItoa(int(cx)), ext.Cy == zzvItoa(int(cy))), "a:ext carries the computed size")
 	zzvAssert(dr.Inline.Graphic.GraphicData.Pic.BlipFill.Blip.Embed == "rId9", "the drawing embeds the picture's relationship id")
 }
+
+// Pictures placed in table cells follow the same sizing rules: explicit width and height, one
+// dimension with the pixel aspect ratio, or the pixel size (the picture is a 3x2 pixel PNG).
+func ZZH_C10_CellImageSize() {
+	zzvFloatMag(44)
+	zzvFloatRel()
+	zzvMerge(false)
+	d := New()
+	t, err := d.AddTable(&TableConfig{Rows: 1, Cols: 1, Width: 3000})
+	zzvAssume(err == nil)
+	var W, H float64
+	mode := zzvChoice(4)
+	switch mode {
+	case 0:
+		W, H = zzvFloatIn(0, 1000), zzvFloatIn(0, 1000)
+		zzvAssume(W > 0 && H > 0)
+	case 1:
+		W = zzvFloatIn(0, 1000)
+		zzvAssume(W > 0)
+	case 2:
+		H = zzvFloatIn(0, 1000)
+		zzvAssume(H > 0)
+	}
+	info, err := d.AddCellImage(t, 0, 0, &CellImageConfig{Data: zzhPNG, Format: ImageFormatPNG, Width: W, Height: H, KeepAspectRatio: true})
+	zzvAssert(err == nil && info != nil, "adding a cell picture succeeds")
+	cell, _ := t.GetCell(0, 0)
+	var ext *DrawingExtent
+	for i := range cell.Paragraphs {
+		for j := range cell.Paragraphs[i].Runs {
+			if dr := cell.Paragraphs[i].Runs[j].Drawing; dr != nil && dr.Inline != nil {
+				ext = dr.Inline.Extent
+			}
+		}
+	}
+	zzvAssert(ext != nil, "the cell holds the picture's drawing")
+	if ext == nil {
+		return
+	}
+	cx, cy := d.calculateDisplaySize(info)
+	zzvAssert(zzvAnd(ext.Cx == zzvItoa(int(cx)), ext.Cy == zzvItoa(int(cy))), "the cell drawing carries the size computed for the picture")
+	fcx, fcy := float64(cx), float64(cy)
+	switch mode {
+	case 0:
+		zzvAssert(zzvAnd(zzvAbsLE(fcx, W*36000, 1.001), zzvAbsLE(fcy, H*36000, 1.001)), "cell picture, explicit size: the requested millimetres in EMU")
+	case 1:
+		zzvAssert(zzvAbsLE(fcx, W*36000, 1.001), "cell picture, width only: the width is the requested millimetres in EMU")
+		zzvAssert(zzvCrossLE(cy, 3, cx, 2, 10), "cell picture, width only: the height follows the pixel aspect ratio")
+	case 2:
+		zzvAssert(zzvAbsLE(fcy, H*36000, 1.001), "cell picture, height only: the height is the requested millimetres in EMU")
+		zzvAssert(zzvCrossLE(cx, 2, cy, 3, 10), "cell picture, height only: the width follows the pixel aspect ratio")
+	default:
+		zzvAssert(zzvAnd(cx == 3*9525, cy == 2*9525), "cell picture without a size request: the pixel size at 96 dpi")
+	}
+	zzvReach("cell-size")
+}
